@@ -148,26 +148,6 @@ pub fn wf(ls: &[Line]) -> bool {
     true
 }
 
-/// well-formed once the raw (corrupted) lines are set aside; a raw line does not interrupt a
-/// field/continuation group for this purpose only if removing it keeps the rest well-formed
-pub fn wf_ignoring_raw(ls: &[Line]) -> bool {
-    // the corrupted line replaces or is inserted before line i: the remaining lines must form a
-    // well-formed document both with the raw line removed and with continuation lines after it
-    // re-attached (a continuation directly after the corrupted line has nothing to continue, so
-    // such documents are excluded from the rejection clause)
-    let mut prev_raw = false;
-    for l in ls {
-        if let Line::Cont(_, _) = l {
-            if prev_raw {
-                return false;
-            }
-        }
-        prev_raw = matches!(l, Line::Raw(_));
-    }
-    let rest: Vec<Line> = ls.iter().filter(|l| !matches!(l, Line::Raw(_))).cloned().collect();
-    wf(&rest)
-}
-
 pub const KEYS: [&str; 10] = ["A", "Source", "X-Y", "~k", "a1", "Foo_bar", "!b#c", "A", "a", "SOURCE"];
 pub const FIRSTS: [&str; 12] = ["b", "1.0-1", "é 😀", "x: y", "a # b", "", "foo, ", ":c", "#d", "\u{a0}José", "\u{3000}x\u{b}", "\u{feff}y"];
 pub const CONTS: [&str; 11] = ["b", ".", "é 😀", "x: y", "a # b", "foo,", "~ ", "-- ", "\u{a0}z", "\u{c}w", "\u{2028}v"];
@@ -230,28 +210,123 @@ pub fn random_lines(rng: &mut Rng, colon_conts: bool) -> Vec<Line> {
 }
 
 /// orphan continuation lines: indentation followed by text, with no field to continue. They are
-/// corrupt (rejected) as the first line of the document or directly after a blank line.
+/// corrupt (rejected) as the first line of the document, directly after a blank line or after a
+/// comment line; after a field / continuation line they continue the value (`lenient` decides).
 pub const ORPHAN_LINES: [&str; 7] = [" x", "\tfoo: bar", "  .", " \t é", " Source: a", " -", "  a b"];
 
-/// position rule for a corrupted line that begins with indentation: it must be the first line or
-/// directly follow a blank line (after a field it would be a continuation line, after a comment
-/// line it is the unsupported 'comment inside a value' construct), its text must be non-empty and
-/// must not begin with '#'.
-pub fn raw_positions_ok(ls: &[Line]) -> bool {
-    for (i, l) in ls.iter().enumerate() {
-        if let Line::Raw(t) = l {
-            if t.chars().next().map(is_indent).unwrap_or(false) {
-                let rest = t.trim_start_matches(is_indent);
-                if rest.is_empty() || rest.starts_with('#') || rest.chars().any(is_nl) {
-                    return false;
-                }
-                if i > 0 && ls[i - 1] != Line::Blank {
-                    return false;
-                }
-            }
-        }
-    }
-    true
+/// `BadLine`s (neither empty, comment, indented, field nor spaced-colon line): rejected at any
+/// position of any document (C03_reject_replace / C03_reject_insert)
+pub const BAD_LINES: [&str; 8] = ["foo", "-x: y", "é: x", ": x", "a b: c", "~", "=", "Ünï: x"];
+
+/// lines the strict lossless reader accepts although the stated grammar (`wf`) has no such line:
+/// white-space-only lines and field lines with blanks before the colon. Placed at every position
+/// of small documents; the oracle for them is `lenient`.
+pub const LENIENT_LINES: [&str; 6] = [" ", "\t", " \t ", "A : b", "A\t: b", "A :"];
+
+/// the kind of a CR/LF-free line (mirror of `lineClass`, lean/Deb822Verif/Lemmas/DocLinesClass.lean)
+#[derive(Clone, Debug, PartialEq)]
+pub enum LineClass {
+    Empty,
+    Comment,
+    WsOnly,
+    /// indentation, then text (the text, indentation removed)
+    Indented(String),
+    /// `NAME:` or `NAME` blanks `:` (name, text after the colon)
+    Field(String, String),
+    Bad,
 }
 
-pub const BAD_LINES: [&str; 8] = ["foo", "-x: y", "é: x", ": x", "a b: c", "~", "=", "Ünï: x"];
+fn is_initial_key_char(c: char) -> bool {
+    c.is_ascii_graphic() && c != '-' && c != '#' && c != ':'
+}
+fn is_key_char(c: char) -> bool {
+    c.is_ascii_graphic() && c != ':'
+}
+
+pub fn line_class(l: &str) -> LineClass {
+    let c = match l.chars().next() {
+        None => return LineClass::Empty,
+        Some(c) => c,
+    };
+    if c == '#' {
+        return LineClass::Comment;
+    }
+    if is_indent(c) {
+        let rest = l.trim_start_matches(is_indent);
+        return if rest.is_empty() { LineClass::WsOnly } else { LineClass::Indented(rest.to_string()) };
+    }
+    if !is_initial_key_char(c) {
+        return LineClass::Bad;
+    }
+    let tail = &l[c.len_utf8()..];
+    let after_name = tail.trim_start_matches(is_key_char);
+    let name = &l[..l.len() - after_name.len()];
+    // `NAME:` (field line) or `NAME` blanks `:` (spaced-colon line); anything else is a BadLine
+    let after_ws = after_name.trim_start_matches(is_indent);
+    match after_ws.strip_prefix(':') {
+        Some(v) => LineClass::Field(name.to_string(), v.to_string()),
+        None => LineClass::Bad,
+    }
+}
+
+/// The lenient line grammar of the strict lossless reader (`Deb822::from_str`), decided line by
+/// line. `None`: the document must be rejected; `Some(content)`: it must be accepted with exactly
+/// this content (paragraphs x (name, value)). The lines must be CR/LF free.
+/// `prev`: a value can be continued (the previous line is a field line, a continuation line, a
+/// white-space-only line or an indented '#' line).
+pub fn lenient(lines: &[String]) -> Option<Vec<Vec<(String, String)>>> {
+    let mut done: Vec<Vec<(String, Vec<String>)>> = vec![];
+    let mut cur: Vec<(String, Vec<String>)> = vec![];
+    let mut prev = false;
+    for l in lines {
+        match line_class(l) {
+            LineClass::Empty => {
+                if !cur.is_empty() {
+                    done.push(std::mem::take(&mut cur));
+                }
+                prev = false;
+            }
+            LineClass::Comment => prev = false,
+            LineClass::Field(k, v) => {
+                let v = v.trim_start_matches(is_indent);
+                cur.push((k, if v.is_empty() { vec![] } else { vec![v.to_string()] }));
+                prev = true;
+            }
+            LineClass::WsOnly => {
+                if !prev {
+                    return None;
+                }
+            }
+            LineClass::Indented(rest) => {
+                if !prev {
+                    return None;
+                }
+                if !rest.starts_with('#') {
+                    cur.last_mut()?.1.push(rest);
+                }
+            }
+            LineClass::Bad => return None,
+        }
+    }
+    if !cur.is_empty() {
+        done.push(cur);
+    }
+    Some(
+        done.into_iter()
+            .map(|p| p.into_iter().map(|(k, ls)| (k, ls.join("\n"))).collect())
+            .collect(),
+    )
+}
+
+/// the lines of a rendered document as the reader sees them (an unterminated empty last line is no
+/// line at all); `None` if a line contains CR or LF
+pub fn text_lines(ls: &[Line], final_newline: bool) -> Option<Vec<String>> {
+    let mut v: Vec<String> = ls.iter().map(|l| l.text()).collect();
+    if v.iter().any(|l| l.chars().any(is_nl)) {
+        return None;
+    }
+    if !final_newline && v.last().map(|l| l.is_empty()).unwrap_or(false) {
+        v.pop();
+    }
+    Some(v)
+}
